@@ -1,12 +1,14 @@
 (* Extract.v — OCaml extraction of the executable model for the correspondence driver.
    Directives used: exactly those of ExtrOcamlBasic (bool, option, unit, list, prod, sumbool,
-   sumor, andb, orb) plus, for the float-using layers, ExtrOCamlFloats and ExtrOCamlInt63
-   (primitive floats / 63-bit integers mapped to the kernel's own Float64 / Uint63 modules).
+   sumor, andb, orb) plus ExtrOCamlFloats and ExtrOCamlInt63 (primitive floats / 63-bit integers
+   mapped to the kernel's own Float64 / Uint63 OCaml modules, package coq-core.kernel).
    N, Z, positive and nat stay the extracted Coq datatypes. *)
-From Coq Require Import Extraction ExtrOcamlBasic.
-From UF Require Import Consts Base Crc Frame Codec.
+From Coq Require Import Extraction ExtrOcamlBasic ExtrOCamlFloats ExtrOCamlInt63.
+From UF Require Import Consts Base Crc Frame Codec F64 Feedback Sender Receiver FrameAck Heap FrameQueue SendRate HalfConn.
 
 Extraction Language OCaml.
 Extraction "uf_model.ml"
-  N.add N.mul N.div N.modulo N.eqb N.ltb N.leb N.of_nat N.to_nat
-  crc_compute read_frame write_frame representable.
+  N.add N.mul N.div N.modulo N.eqb N.ltb N.leb N.of_nat N.to_nat N.testbit
+  crc_compute read_frame write_frame representable
+  hc_new hc_send hc_receive hc_handle_frame hc_step hc_flush hc_send_buffer_size hc_is_send_pending set_credit
+  src_new src_notify_frame_sent src_step eval_tcp_throughput f_bits.
